@@ -19,7 +19,7 @@ import tempfile
 import tokenize
 
 VERIF = os.path.dirname(os.path.dirname(os.path.abspath(__file__)))
-REPO = "/repo"
+REPO = os.environ.get("FUZZ_REPO", "/repo")
 PY = "/venv/bin/python"
 
 
